@@ -22,6 +22,7 @@ RUN_WALL_CAP = 120
 
 PROFILE_MODULES = {
     "C01": "dsim.profiles.valuesp",
+    "C02": "dsim.profiles.resave",
     "C03": "dsim.profiles.grid",
     "C11": "dsim.profiles.addressing",
     "C12": "dsim.profiles.merge",
